@@ -398,7 +398,37 @@ func (s *Scope) evalQuant(e *Expr) *Val {
 	n := s.child()
 	n.vars[e.Var] = v
 	universal := e.Op == "forall"
-	if s.skolem != 0 && c.inQuant == 0 && ((s.skolem == 1) == (universal != s.neg)) {
+	wantSk := s.skolem != 0 && ((s.skolem == 1) == (universal != s.neg))
+	if wantSk && c.inQuant > 0 && len(c.quantVars) == c.inQuant && ty != nil {
+		// nested under kept quantifiers: a skolem function of the enclosing bound variables
+		var argSorts, argNames []string
+		for _, qv := range c.quantVars {
+			argSorts = append(argSorts, qv[1])
+			argNames = append(argNames, qv[0])
+		}
+		fn := sanitize(c.fresh("skf." + e.Var))
+		c.decls = append(c.decls, fmt.Sprintf("(declare-fun %s (%s) %s)", fn, strings.Join(argSorts, " "), sortName))
+		app := raw(fmt.Sprintf("(%s %s)", fn, strings.Join(argNames, " ")), sortName)
+		n.vars[e.Var] = scalar(app, ty)
+		body := n.evalBool(e.Args[0])
+		trig := raw(fmt.Sprintf("(uf.%s %s)", trigName(sortName), app.S), SBool)
+		c.UF(trigName(sortName), SBool, raw(name, sortName)) // make sure the predicate is declared
+		if c.intMode {
+			w, signed, _ := intInfo(ty)
+			lo, hi := typeRange(w, signed)
+			rng := And(ILe(IntLit(lo), app), ILe(app, IntLit(hi)))
+			if universal {
+				body = Implies(rng, body)
+			} else {
+				body = And(rng, body)
+			}
+		}
+		if universal {
+			return scalar(body, types.Typ[types.Bool])
+		}
+		return scalar(And(trig, body), types.Typ[types.Bool])
+	}
+	if wantSk && c.inQuant == 0 {
 		// goal: positive forall / negative exists; assumption: positive exists / negative forall
 		c.decls = append(c.decls, fmt.Sprintf("(declare-const %s %s)", name, sortName))
 		c.addTrig(v.T)
@@ -417,7 +447,9 @@ func (s *Scope) evalQuant(e *Expr) *Val {
 	}
 	c.inQuant++
 	c.quantLoads = append(c.quantLoads, nil)
-	body := n.noSkolem().evalBool(e.Args[0])
+	c.quantVars = append(c.quantVars, [2]string{name, sortName})
+	body := n.evalBool(e.Args[0])
+	c.quantVars = c.quantVars[:len(c.quantVars)-1]
 	loads := c.quantLoads[len(c.quantLoads)-1]
 	c.quantLoads = c.quantLoads[:len(c.quantLoads)-1]
 	c.inQuant--
@@ -426,7 +458,7 @@ func (s *Scope) evalQuant(e *Expr) *Val {
 	seenPat := map[string]bool{}
 	for _, l := range loads {
 		if strings.Contains(l.S, name+" ") || strings.Contains(l.S, name+")") {
-			if !seenPat[l.S] && !strings.Contains(l.S, "(ite ") {
+			if !seenPat[l.S] && !strings.Contains(l.S, "(ite ") && !c.mentionsDef(l.S) {
 				seenPat[l.S] = true
 				cands = append(cands, l)
 			}
@@ -455,6 +487,17 @@ func (s *Scope) evalQuant(e *Expr) *Val {
 		}
 	}
 	return scalar(raw(fmt.Sprintf("(%s ((%s %s)) (! %s%s))", e.Op, name, sortName, body.S, pats), SBool), types.Typ[types.Bool])
+}
+
+// mentionsDef: the term contains a define-fun name (which the solver expands, possibly into
+// connectives that are not allowed in patterns).
+func (c *Ctx) mentionsDef(t string) bool {
+	for _, tok := range strings.FieldsFunc(t, func(r rune) bool { return r == '(' || r == ')' || r == ' ' }) {
+		if c.defNames[tok] {
+			return true
+		}
+	}
+	return false
 }
 
 // fieldIndex finds a (possibly promoted) field; returns the index path.
